@@ -23,7 +23,7 @@ go test -count=1 -vet=off -timeout 25m ./... > /tmp/seedval/$id.suite.txt 2>&1
 if grep -q "^FAIL\|^--- FAIL\|panic:" /tmp/seedval/$id.suite.txt; then res "SUITE with change: FAILED ($(grep -c '^FAIL' /tmp/seedval/$id.suite.txt) failing packages)"; grep "^FAIL\|^--- FAIL" /tmp/seedval/$id.suite.txt | head -5 >> "$out/validation.log"; else res "SUITE with change: all packages ok ($(grep -c '^ok' /tmp/seedval/$id.suite.txt) ok)"; fi
 cp "$out/demo_test.go" "$val/$pkg/$dfile"
 if (eval "$runcmd") > /tmp/seedval/$id.demo1.txt 2>&1; then res "DEMO with change: PASSED (expected FAIL)"; else res "DEMO with change: failed as expected"; fi
-git checkout -q -- . ; git status --short | grep -v "$dfile" | grep -v "go.mod\|go.sum" >> "$out/validation.log"
+git checkout -q -- . ; git clean -fdq ; cp "$out/demo_test.go" "$val/$pkg/$dfile"; git status --short | grep -v "$dfile" | grep -v "go.mod\|go.sum" >> "$out/validation.log"
 if (eval "$runcmd") > /tmp/seedval/$id.demo2.txt 2>&1; then res "DEMO without change: passed as expected"; else res "DEMO without change: FAILED (expected PASS)"; tail -5 /tmp/seedval/$id.demo2.txt >> "$out/validation.log"; fi
 cd /verif
 git -C /repo worktree remove --force "$val"; rm -rf "$val" /tmp/seedval/$id.*.txt
